@@ -2,7 +2,7 @@ import LexVerif.Proof.ParseNumberC11Trunc
 import LexVerif.Proof.ParseNumberTotalMain
 /-!
 # Proof.ParseNumberC11Many — C11 (B): the many-digits re-parse and `parse_number` commute with truncation
-(no digit-separator byte, release build)
+(release build; `NumContig`: no digit-separator byte, or no separator flag on integer / fraction / exponent)
 
 `manyDigitsPhase` reads the original buffer only through two `skip_zeros` runs starting at `ip.start`; both runs
 end at a byte that is not `'0'`, which lies at or before the cursor `parse_number` returns.
@@ -107,13 +107,12 @@ theorem rel_nf {c : Cfg} (hf : c.feats.format = false) (hd : c.debug = false) : 
     rw [hs]; intro h; cases h⟩
 
 section
-variable {c : Cfg} (hc : Rel c) (hb : c.bytesContiguous = true)
+variable {c : Cfg} (hc : Rel c) (hb : NumContig c)
 include hc hb
 
 theorem iterCount_step_inc_k (k : Comp) (hk : k ≠ .special) (b : Bytes) :
     Bytes.iterCount c k (Bytes.incCount c k (Bytes.at b (b.index + 1))) = Bytes.iterCount c k b + 1 := by
-  unfold Bytes.iterCount Bytes.currentCount Bytes.incCount Bytes.at
-  simp only [hb, if_true]
+  unfold Bytes.iterCount Bytes.incCount Bytes.at
   cases hf : c.feats.format with
   | false => simp [PNTotal.notFormat_iterContig k hf]
   | true =>
@@ -134,7 +133,7 @@ theorem skipZerosLoop_g (k : Comp) (hk : k ≠ .special) :
   | succ n ih =>
     intro b hv hfu
     unfold skipZerosLoop
-    simp only [readIfValueCased_g hc hb, bind, Except.bind, pure, Except.pure]
+    simp only [readIfValueCased_g hc hb k hk, bind, Except.bind, pure, Except.pure]
     cases hx : b.slc[b.index]? with
     | none => simp [drop_of_none hx, leadZ]
     | some x =>
@@ -219,7 +218,7 @@ def emptyBranch (c : Cfg) (isPartial : Bool) (o : POpts) (ip : IntPart) (fp : Fr
 theorem emptyBranch_err (isPartial : Bool) (o : POpts) (ip : IntPart) (fp : FracPart) :
     ∃ k i, emptyBranch c isPartial o ip fp = .error (.err k i) := by
   unfold emptyBranch
-  simp only [peek_contig hc hb, bind, Except.bind]
+  simp only [peek_num hc hb .integer (by decide), bind, Except.bind]
   split
   · exact ⟨_, _, rfl⟩
   · exact ⟨_, _, rfl⟩
@@ -234,7 +233,7 @@ theorem parseNumber_g (isPartial : Bool) (o : POpts) (b : Bytes) (neg fv : Bool)
         | .error e => .error e
         | .ok fp =>
           if (c.requiredMantissaDigits &&
-              (decide (ip.nDigits + fp.nAfterDot = 0) || (c.feats.format && decide (fp.byte.index = 0)))) = true then
+              (decide (ip.nDigits + fp.nAfterDot = 0) || (c.feats.format && decide (fp.byte.currentCount c = 0)))) = true then
             emptyBranch c isPartial o ip fp
           else
             match exponentPhase c (fp.byte.firstIs o.exp (c.caseSensitiveExponent && c.feats.format)) fp.byte
@@ -260,7 +259,7 @@ theorem parseNumber_g (isPartial : Bool) (o : POpts) (b : Bytes) (neg fv : Bool)
     cases fractionPhase c o ip.byte ip.mantissa with
     | error e => rfl
     | ok fp =>
-      simp only [currentCount_g hc hb]
+      simp only
       split
       · unfold emptyBranch
         simp only [bind, Except.bind]
@@ -356,7 +355,7 @@ theorem parseNumber_trunc (p : Bool) (o : POpts) (b : Bytes) (neg fv : Bool) (r 
             rw [parseNumber_g hc hb, i9 n (by omega)]
             simp only
             rw [f7 n (by omega)]
-            simp only [trunc_index]
+            simp only [trunc_index, trunc_currentCount]
             rw [if_neg hcnd]
             have hfi : (trunc n fp.byte).firstIs o.exp (c.caseSensitiveExponent && c.feats.format) =
                 fp.byte.firstIs o.exp (c.caseSensitiveExponent && c.feats.format) := by
